@@ -17,6 +17,8 @@ def run(ctx):
         dscommon.run_family(ctx, "C03K1", fmt="netcdf", nontrivial_fn=lambda o: bool(o["opts"]["given"]))
         # every input of ONE Data object in turn: a selection (-obsrange above all) holds for every input, not only for the first one asked
         dscommon.run_family(ctx, "C03K1", fmt="text", fresh=False, nontrivial_fn=lambda o: bool(o["opts"]["given"]))
+        # a NetCDF file whose integer time variable has an unwritten (missing) last entry: a missing coordinate is no initialisation time
+        dscommon.run_family(ctx, "C03K1", fmt="netcdf", variant={"nc_pad_time": True, "nc_missing": "fill"}, nontrivial_fn=lambda o: bool(o["opts"]["given"]))
     else:
         dscommon.run_family(ctx, "C03K3", fmt="text", nontrivial_fn=lambda o: bool(o["opts"]["given"]), timeout_s=1800)
         dscommon.run_family(ctx, "C03K2", fmt="netcdf", nontrivial_fn=lambda o: bool(o["opts"]["given"]), cli_lists=10000)
